@@ -90,7 +90,7 @@ CHECKS.update({
 })
 CHECKS.update({
  "C15": dict(
-    text="Proof (Coq, exact reals, unbounded): an invariant of the incremental Calinski-Harabasz state - the dictionary holds, for exactly the labels in use, the count, mean, within-cluster sum of squares and a zero correction vector of that label's members, WGSS is their sum, mu the global mean, and the criterion equals the batch index - is established by the empty index and preserved by add_sample+update and by switch_label+update (to an existing, a brand-new or the same cluster); hence after ANY interleaving of add_sample / switch_label that the API permits (a switch never empties a cluster) every operation was defined and the tracked value equals the batch index of the current labelled data, in any dimension (0 while undefined). The gate (a sample joins an existing cluster only if the reset function - strict improvement - returned true for it) is the generic winner-not-vetoed theorem. Validated rather than proved: that iCVIFuzzyART.fit issues such a permitted sequence with final data (X, labels_) - the executable model is compared with the implementation after every operation of generated sequences and after fits (offline/online), and with the batch index by exact rational equality; tracked value vs an independent batch computation and the gate (iCVIFuzzyART, CVIART incl. CVIART over DualVigilanceART, all three sklearn indices) are re-derived on the implementation.",
+    text="Proof (Coq, exact reals, unbounded): an invariant of the incremental Calinski-Harabasz state - the dictionary holds, for exactly the labels in use, the count, mean, within-cluster sum of squares and a zero correction vector of that label's members, WGSS is their sum, mu the global mean, and the criterion equals the batch index - is established by the empty index and preserved by add_sample+update and by switch_label+update (to an existing, a brand-new or the same cluster); hence after ANY interleaving of add_sample / switch_label that the API permits (a switch never empties a cluster) every operation was defined and the tracked value equals the batch index of the current labelled data, in any dimension (0 while undefined). The gate (a sample joins an existing cluster only if the reset function - strict improvement - returned true for it) is the generic winner-not-vetoed theorem. For the model of iCVIFuzzyART.fit (online and offline, every kernel / mode / epsilon) it is proved that a defined fit ends with the tracked value equal to the batch index of (X, labels_). The executable model is compared with the implementation after every operation of generated sequences and after fits (offline/online), and with the batch index by exact rational equality; tracked value vs an independent batch computation and the gate (iCVIFuzzyART, CVIART incl. CVIART over DualVigilanceART, all three sklearn indices) are re-derived on the implementation.",
     note="Trusted: Coq kernel + stdlib real axioms; exact-real semantics (binary64 rounding residue of WGSS: known finding); sklearn indices as given; fits with a validity comparison closer than 1e-9 are not judged against the model.",
     technique="Coq proof (state invariant by induction over operation sequences; generic gate theorem) + correspondence incl. model-vs-batch exact check",
     ref="DESIGN.md section 7 C15"),
